@@ -118,8 +118,21 @@ func checkC18(c *Ctx) error {
 		yaml := d.yaml + body
 		_ = work.WriteFile(filepath.Join(dir, "in.yaml"), []byte(yaml))
 		out := filepath.Join(dir, "out.go")
-		run := cli.Do(w, bins[j.b], nil, dir, out, "build", "-i", "in.yaml", "-o", out)
-		files := map[string]string{"input/in.yaml": yaml, "build-version.txt": B, "stdout.txt": run.Res.Stdout}
+		// the gate belongs to the build command, whatever else it is asked to do: every third pair runs with other flags
+		args := []string{"build", "-i", "in.yaml", "-o", out}
+		switch ji % 9 {
+		case 2:
+			args = append(args, "--stub")
+		case 5:
+			args = append(args, "--ignore-missing-params", "--ignore-missing-services")
+		case 8:
+			args = append(args, "--stub", "--ignore-missing-services")
+		}
+		if len(args) > 5 {
+			c.Add("pairs_run_with_other_flags", 1)
+		}
+		run := cli.Do(w, bins[j.b], nil, dir, out, args...)
+		files := map[string]string{"input/in.yaml": yaml, "build-version.txt": B, "stdout.txt": run.Res.Stdout, "args.txt": strings.Join(args, " ")}
 		want := "accept"
 		switch d.kind {
 		case "nonstring":
